@@ -106,7 +106,18 @@ def rule_e(ctx):
         hl.rule_covers_all(ctx, rid, hl.View(F, R, T))
 
 
+def rule_f(ctx):
+    F = ctx.F
+    rid = "C18.f"
+    ctx.rule(rid, "the generation flip sits between the first sampling of the reader slots and the wait loop of the swapping writer, once per publish; "
+                  "no other entry point of the lock writes the generation", floor=4)
+    R = Roles(F)
+    for T in hl.lock_types(F):
+        hl.rule_generation_flip(ctx, rid, hl.View(F, R, T))
+
+
 def run(ctx):
+    ctx.guarded("C18.f", rule_f)
     from .. import fixtures
     ctx.guarded("C18.FX", lambda c: fixtures.run(c, ['effects', 'loops']))
     ctx.guarded("C18.e", rule_e)
